@@ -198,6 +198,12 @@ def run(ctx):
     # the property itself, evaluated on the implementation: reader after writer is the identity
     # on the domain, and range violations raise
     prop_bad = []
+    # Kafka's BOOLEAN: one byte, zero is false, EVERY non-zero byte is true (all 256 values)
+    if "read_boolean" in pub_r:
+        wrong = [b0 for b0 in range(256) if call_reader(pub_r["read_boolean"], bytes([b0]))[:2] != ("ok", ("bool", b0 != 0))]
+        if wrong:
+            prop_bad.append({"function": "read_boolean", "value": [hex(x) for x in wrong[:8]],
+                             "what": f"{len(wrong)} of the 256 byte values are not read as 'zero is false, anything else is true'"})
     PAIRS = {
         "write_int8": "read_int8", "write_int16": "read_int16", "write_int32": "read_int32", "write_int64": "read_int64",
         "write_uint8": "read_uint8", "write_uint16": "read_uint16", "write_uint32": "read_uint32",
